@@ -1,4 +1,4 @@
 SPECIFICATION Spec
 CONSTANT Ms = {200, 1440, 1460}
-INVARIANT EmitCases
+INVARIANTS EmitCases EmitPersist
 CHECK_DEADLOCK FALSE
